@@ -531,3 +531,16 @@ M('C02', 'log-base', T, "        return log(self.arg.evaluate(species,params,tim
 M('C02', 'classifier-misses-caret', T, "    instring = instring.replace('^','**')\n    instring = instring.replace('|','_')\n    root = sympy.sympify(instring, _clash1)", "    instring = instring.replace('|','_')\n    root = sympy.sympify(instring, _clash1)", 'fire', 'R2.4-classifier-agreement')
 M('C02', 'silent-step-strict', T, "        if self.arg.evaluate(species,params,time) >= 0:\n            return 1.0\n        return 0", "        if self.arg.evaluate(species,params,time) > 0:\n            return 1.0\n        return 0.0", 'silent')
 M('C02', 'silent-power-pow', T, "        return self.base.evaluate(species,params,time) ** \\\n               self.exponent.evaluate(species,params,time)", "        return pow(self.base.evaluate(species,params,time), self.exponent.evaluate(species,params,time))", 'silent')
+
+# ------------------------------------------------------------------ C17
+M('C17', 'revert-volume-cell-state-reduce', S, "    def __reduce__(self):\n        return (self.__class__, (), self.__getstate__())\n", "", 'fire', 'R17.3-picklable/VolumeCellState')
+M('C17', 'revert-delay-queue-state', S, "    def __setstate__(self, state):\n        super().__setstate__(state[:3])\n        self.delay_queue = state[3]\n\n    def __getstate__(self):\n        return super().__getstate__() + (self.delay_queue,)\n", "", 'fire', 'R17.2-coverage/DelayVolumeCellState')
+M('C17', 'model-state-fields-swapped', T, "                self.species2index,\n                self.params2index,\n                self.species_values,", "                self.params2index,\n                self.species2index,\n                self.species_values,", 'fire', 'R17.1-positions/Model')
+M('C17', 'setstate-wrong-index', T, "        self.reaction_updates = state[14]\n        self.delay_reaction_updates = state[15]", "        self.reaction_updates = state[15]\n        self.delay_reaction_updates = state[14]", 'fire', 'R17.1-positions/Model')
+M('C17', 'lineage-offset', L, "		super().__setstate__(state[22:])", "		super().__setstate__(state[21:])", 'fire', 'R17.1-positions/LineageModel')
+M('C17', 'new-attribute-not-pickled', 'bioscrape/types.pxd', "    cdef np.ndarray data\n    cdef np.ndarray time\n    cdef np.ndarray volume\n", "    cdef np.ndarray data\n    cdef np.ndarray time\n    cdef np.ndarray volume\n    cdef np.ndarray extra_trace\n", 'fire', 'R17.2-coverage/Schnitz')
+M('C17', 'vector-rebuilt-from-wrong-list', T, "        self.c_delays.clear()\n        if state[5] is not None:\n            for x in state[5]:", "        self.c_delays.clear()\n        if state[4] is not None:\n            for x in state[4]:", 'fire', 'R17.1-positions/Model')
+M('C17', 'void-pointer-member-in-term', 'bioscrape/types.pxd', "cdef class PowerTerm(Term):\n", "cdef class PowerTerm(Term):\n    cdef void* scratch\n", 'fire', 'R17.3-picklable/PowerTerm')
+M('C17', 'binary-term-restore-reversed', T, "        for i, x in enumerate(state):\n            new_term.py_add_term(x)", "        for i, x in enumerate(reversed(state)):\n            new_term.py_add_term(x)", 'fire', 'R17.4-ordered-restore')
+M('C17', 'cellstate-copy-dropped', S, "        self.state = state[2].copy()", "        self.state = state[2]", 'silent')
+M('C17', 'reduce-arg-order', L, "return (self.__class__, (self.initial_volume, self.initial_time, self.state, self.volume, self.time, self.divided, self.dead))", "return (self.__class__, (self.initial_time, self.initial_volume, self.state, self.volume, self.time, self.divided, self.dead))", 'fire', 'R17.1-positions/LineageVolumeCellState.__reduce__')
